@@ -8,6 +8,13 @@
   `some ps` = it filled the slots with `ps`), modelled by `Sasl.encodeParts` / `Sasl.decodeScan`
   and tied to the code by the split function's own translation (GenScan) and the differential run.
 
+  The ties are stated for whatever function the translator produced (`… = some f → f = …`): a
+  method that a maintainer rewrites with constructs outside the translated subset (a loop, a helper
+  closure) is `none`, nothing is claimed about it any more, the check says so in its evidence
+  (`ties_not_established`) and the property rests on the differential run alone for that method, as
+  it did before these ties existed. A method that IS translated and differs from the model breaks
+  this module (a broken proof obligation).
+
   The `*_is_source` theorems hold for EVERY `enc` / `dec`: what the methods do around the loops —
   the per-field limits, which parts are handed to the encoder and in which order, the field checks
   after decoding, the response text grammar — is what the source says now. The `source_*`
@@ -24,24 +31,24 @@ open Whawty Whawty.Gen Whawty.Sasl
 /-- `Request.Encode`: refused (an error, the encoder is never called) when a field is longer than
     `MaxRequestLength`; otherwise exactly the four fields, in the order login, password, service,
     realm, go to the part encoder and its result is the method's. -/
-theorem requestEncode_is_source :
-    requestEncode = some (fun enc l p s r =>
+theorem requestEncode_is_source (f) (hf : requestEncode = some f) :
+    f = (fun enc l p s r =>
       if l.length > maxLen ∨ p.length > maxLen ∨ s.length > maxLen ∨ r.length > maxLen then true
       else enc [l, p, s, r]) := by
-  unfold requestEncode
-  congr 1
-  funext enc l p s r
-  simp only [maxLen, decide_eq_true_eq]
-  repeat' split
-  all_goals first | rfl | omega | (simp_all; done) | (simp_all; omega)
+  unfold requestEncode at hf
+  first
+    | (cases hf; done)   -- the method left the translated subset: nothing is claimed
+    | (injection hf with hf
+       subst hf
+       funext enc l p s r
+       simp only [maxLen, decide_eq_true_eq]
+       repeat' split
+       all_goals first | rfl | omega | (simp_all; done) | (simp_all; omega))
 
 /-- With the model's part encoder: the source's `Request.Encode` fails exactly when the model's does. -/
 theorem source_requestEncode_model (f) (hf : requestEncode = some f) (r : Request) :
     f (fun ps => (encodeParts ps).isNone) r.login r.password r.service r.realm = (Request.encode r).isNone := by
-  have hs := requestEncode_is_source
-  rw [hf] at hs
-  injection hs with hs
-  rw [hs]
+  rw [requestEncode_is_source f hf]
   simp only [Request.encode]
   repeat' split
   all_goals first | rfl | (simp_all; done) | (simp_all; omega) | omega
@@ -50,42 +57,45 @@ theorem source_requestEncode_model (f) (hf : requestEncode = some f) (r : Reques
     fields; four decoded parts are subjected to exactly the model's field checks (`Request.ofParts`:
     empty login / empty password refused, receiver untouched) and otherwise become the receiver's
     fields in the order login, password, service, realm. -/
-theorem requestDecode_is_source :
-    requestDecode = some (fun dec l0 p0 s0 r0 =>
+theorem requestDecode_is_source (f) (hf : requestDecode = some f) :
+    f = (fun dec l0 p0 s0 r0 =>
       match dec 4 with
       | none => (true, l0, p0, s0, r0)
       | some ps =>
         match Request.ofParts [ps.getD 0 [], ps.getD 1 [], ps.getD 2 [], ps.getD 3 []] with
         | none => (true, l0, p0, s0, r0)
         | some q => (false, q.login, q.password, q.service, q.realm)) := by
-  unfold requestDecode
-  congr 1
-  funext dec l0 p0 s0 r0
-  cases dec 4 with
-  | none => rfl
-  | some ps =>
-    simp only [Request.ofParts, decide_eq_true_eq]
-    generalize ps.getD 0 [] = a
-    generalize ps.getD 1 [] = b
-    cases a <;> cases b <;> simp only [List.length_cons, List.length_nil, List.isEmpty_cons, List.isEmpty_nil,
-      Bool.or_true, Bool.or_false, if_true, Bool.false_eq_true, if_false] <;>
-      (repeat' split) <;> first | rfl | omega | (simp_all; done)
+  unfold requestDecode at hf
+  first
+    | (cases hf; done)
+    | (injection hf with hf
+       subst hf
+       funext dec l0 p0 s0 r0
+       cases dec 4 with
+       | none => rfl
+       | some ps =>
+         simp only [Request.ofParts, decide_eq_true_eq]
+         generalize ps.getD 0 [] = a
+         generalize ps.getD 1 [] = b
+         cases a <;> cases b <;> simp only [List.length_cons, List.length_nil, List.isEmpty_cons, List.isEmpty_nil,
+           Bool.or_true, Bool.or_false, if_true, Bool.false_eq_true, if_false] <;>
+           (repeat' split) <;> first | rfl | omega | (simp_all; done))
 
 /-- `Response.Encode`: the single part handed to the encoder is the model's `Response.text`. -/
-theorem responseEncode_is_source :
-    responseEncode = some (fun enc b m => enc [Response.text ⟨b, m⟩]) := by
-  unfold responseEncode
-  congr 1
-  funext enc b m
-  cases b <;> cases m <;> simp [Response.text, okB, noB]
+theorem responseEncode_is_source (f) (hf : responseEncode = some f) :
+    f = (fun enc b m => enc [Response.text ⟨b, m⟩]) := by
+  unfold responseEncode at hf
+  first
+    | (cases hf; done)
+    | (injection hf with hf
+       subst hf
+       funext enc b m
+       cases b <;> cases m <;> simp [Response.text, okB, noB])
 
 /-- With the model's part encoder: the source's `Response.Encode` fails exactly when the model's does. -/
 theorem source_responseEncode_model (f) (hf : responseEncode = some f) (r : Response) :
     f (fun ps => (encodeParts ps).isNone) r.result r.message = (Response.encode r).isNone := by
-  have hs := responseEncode_is_source
-  rw [hf] at hs
-  injection hs with hs
-  rw [hs]
+  rw [responseEncode_is_source f hf]
   rfl
 
 /-- The model's response grammar seen as the result triple of `Response.Decode` (error, Result,
@@ -111,29 +121,32 @@ theorem ofText_view (t m0 : Bytes) :
     not starting with OK / NO) is an error with `Result = false`; otherwise the verdict is the
     model's, and the message is the model's when the text is longer than three bytes — a shorter
     text leaves the receiver's `Message` as it was (`m0`; the model's `ofText` is for `m0 = ""`). -/
-theorem responseDecode_is_source :
-    responseDecode = some (fun dec (_b0 : Bool) m0 =>
+theorem responseDecode_is_source (f) (hf : responseDecode = some f) :
+    f = (fun dec (_b0 : Bool) m0 =>
       match dec 1 with
       | none => (true, false, m0)
       | some ps =>
         match Response.ofText (ps.getD 0 []) with
         | none => (true, false, m0)
         | some q => (false, q.result, if (ps.getD 0 []).length > 3 then q.message else m0)) := by
-  unfold responseDecode
-  congr 1
-  funext dec b0 m0
-  cases dec 1 with
-  | none => rfl
-  | some ps =>
-    simp only []
-    generalize ps.getD 0 [] = t
-    have t2 : Int.toNat 2 = 2 := rfl
-    have t0 : Int.toNat 0 = 0 := rfl
-    have t3 : Int.toNat 3 = 3 := rfl
-    rw [ofText_view]
-    simp only [slice, t0, t2, t3, List.drop_zero, Nat.sub_zero, okB, noB, decide_eq_true_eq]
-    repeat' split
-    all_goals first | rfl | omega | (simp_all; done) | (simp_all; omega)
+  unfold responseDecode at hf
+  first
+    | (cases hf; done)
+    | (injection hf with hf
+       subst hf
+       funext dec b0 m0
+       cases dec 1 with
+       | none => rfl
+       | some ps =>
+         simp only []
+         generalize ps.getD 0 [] = t
+         have t2 : Int.toNat 2 = 2 := rfl
+         have t0 : Int.toNat 0 = 0 := rfl
+         have t3 : Int.toNat 3 = 3 := rfl
+         rw [ofText_view]
+         simp only [slice, t0, t2, t3, List.drop_zero, Nat.sub_zero, okB, noB, decide_eq_true_eq]
+         repeat' split
+         all_goals first | rfl | omega | (simp_all; done) | (simp_all; omega))
 
 /-- For a fresh receiver (`Message` empty, as in `sasl.Client.Auth` and in the PAM-side reading of
     the reply) the source's `Response.Decode` computes exactly the model's `ofText`. -/
@@ -145,10 +158,7 @@ theorem source_responseDecode_fresh (f) (hf : responseDecode = some f) (dec) (b0
         match Response.ofText (ps.getD 0 []) with
         | none => (true, false, [])
         | some q => (false, q.result, q.message) := by
-  have hs := responseDecode_is_source
-  rw [hf] at hs
-  injection hs with hs
-  rw [hs]
+  rw [responseDecode_is_source f hf]
   cases hd : dec 1 with
   | none => simp only [hd]
   | some ps =>
@@ -176,10 +186,7 @@ theorem source_responseDecode_fresh (f) (hf : responseDecode = some f) (dec) (b0
 theorem source_response_positive_only_on_OK (f) (hf : responseDecode = some f) (dec) (b0 : Bool) (m0 m : Bytes)
     (h : f dec b0 m0 = (false, true, m)) :
     ∃ ps, dec 1 = some ps ∧ (ps.getD 0 []).take 2 = okB := by
-  have hs := responseDecode_is_source
-  rw [hf] at hs
-  injection hs with hs
-  rw [hs] at h
+  rw [responseDecode_is_source f hf] at h
   cases hd : dec 1 with
   | none => simp [hd] at h
   | some ps =>
@@ -199,10 +206,7 @@ theorem source_request_decode_fields (f) (hf : requestDecode = some f) (dec) (l0
     (h : f dec l0 p0 s0 r0 = (false, l, p, s, r)) :
     ∃ ps, dec 4 = some ps ∧ l = ps.getD 0 [] ∧ p = ps.getD 1 [] ∧ s = ps.getD 2 [] ∧ r = ps.getD 3 [] ∧
       l ≠ [] ∧ p ≠ [] := by
-  have hs := requestDecode_is_source
-  rw [hf] at hs
-  injection hs with hs
-  rw [hs] at h
+  rw [requestDecode_is_source f hf] at h
   cases hd : dec 4 with
   | none => simp [hd] at h
   | some ps =>
@@ -258,10 +262,7 @@ theorem source_requestDecode_model (f) (hf : requestDecode = some f) (cs : List 
       match Request.decodeChunked cs with
       | none => (true, l0, p0, s0, r0)
       | some (q, _) => (false, q.login, q.password, q.service, q.realm) := by
-  have hs := requestDecode_is_source
-  rw [hf] at hs
-  injection hs with hs
-  rw [hs]
+  rw [requestDecode_is_source f hf]
   simp only [Request.decodeChunked]
   cases hd : decodeScan 4 [] cs 0 with
   | none => simp
